@@ -259,16 +259,19 @@ def _catalogue():
       lambda R: ([R.choice([_sq(R), near(R, {"gen": "hess", "n": R.randint(2, 5), "seed": R.randrange(10 ** 6)}),
                             near(R, {"gen": "hess", "n": R.randint(3, 5), "seed": R.randrange(10 ** 6)})])], {}), 2)
     F("decomp.quaternion_schur", lambda R: ([G(*(lambda n: (n, n))(R.randint(1, 4)), R.randrange(10 ** 6))],
-                                          {"max_iter": 40, "shift": R.choice(["wilkinson", "rayleigh"])}))
+                                          {"max_iter": 40, "shift": R.choice(["wilkinson", "rayleigh"]), "return_diagnostics": R.random() < 0.4}))
     F("decomp.quaternion_schur_pure", lambda R: ([G(*(lambda n: (n, n))(R.randint(1, 4)), R.randrange(10 ** 6))],
-                                               {"max_iter": 25}))
+                                               {"max_iter": 25, "return_diagnostics": R.random() < 0.4}))
     F("decomp.quaternion_schur_pure_implicit",
-      lambda R: ([G(*(lambda n: (n, n))(R.randint(1, 4)), R.randrange(10 ** 6))], {"max_iter": 25}))
+      lambda R: ([G(*(lambda n: (n, n))(R.randint(1, 4)), R.randrange(10 ** 6))],
+                 {"max_iter": 25, "return_diagnostics": R.random() < 0.4}))
     F("decomp.quaternion_schur_unified",
       lambda R: ([G(*(lambda n: (n, n))(R.randint(1, 4)), R.randrange(10 ** 6))],
-                 {"max_iter": 25, "variant": R.choice(["rayleigh", "implicit", "aed", "none"])}))
+                 {"max_iter": 25, "variant": R.choice(["rayleigh", "implicit", "aed", "ds", "none"]),
+                  "return_diagnostics": R.random() < 0.4}), 2)
     F("decomp.schur.quaternion_schur_experimental",
-      lambda R: ([G(*(lambda n: (n, n))(R.randint(1, 4)), R.randrange(10 ** 6))], {"max_iter": 20}))
+      lambda R: ([G(*(lambda n: (n, n))(R.randint(1, 4)), R.randrange(10 ** 6))],
+                 {"max_iter": 20, "return_diagnostics": R.random() < 0.4}))
     # helpers of the decompositions
     def hv(R):
         n = R.randint(1, 4)
@@ -342,6 +345,56 @@ def gen_fn_step(R, client):
     if kwargs:
         st["kwargs"] = kwargs
     return st
+
+
+HERM_ONLY = ("decomp.tridiagonalize", "decomp.quaternion_eigendecomposition", "decomp.quaternion_eigenvalues",
+             "decomp.quaternion_eigenvectors")
+
+
+def gen_flow(R, client, at):
+    """Dataflow between library calls: a producer step and a consumer that receives (part of)
+    its returned value.  `at` is the index the producer will have in the trace."""
+    res = {"gen": "result", "of": at}
+    kind = R.choice(["sparse", "sparse", "test_matrix", "unitary", "qr", "lu", "svd", "hermitian"])
+    if kind == "sparse":
+        m, n = R.randint(1, 5), R.randint(1, 5)
+        prod = {"k": "fn", "fn": "data_gen.create_sparse_quat_matrix", "args": [m, n], "kwargs": {"density": 0.6}}
+        cons = R.choice([
+            {"k": "fn", "fn": "utils.quat_frobenius_norm", "args": [res]},
+            {"k": "fn", "fn": "utils.quat_hermitian", "args": [res]},
+            {"k": "fn", "fn": "utils.matrix_norm", "args": [res, "fro"]},
+            {"k": "fn", "fn": "utils.quat_matmat", "args": [res, G(n, R.randint(1, 3), R.randrange(10 ** 6))]},
+            {"k": "fn", "fn": "utils.quat_matmat", "args": [G(R.randint(1, 3), m, R.randrange(10 ** 6)), res]}])
+    elif kind == "test_matrix":
+        m, n = R.randint(1, 5), R.randint(1, 5)
+        prod = {"k": "fn", "fn": "data_gen.create_test_matrix", "args": [m, n]}
+        cons = R.choice([{"k": "fn", "fn": "utils.rank", "args": [res]},
+                         {"k": "fn", "fn": "decomp.qsvd.qr_qua", "args": [res]},
+                         {"k": "fn", "fn": "decomp.qsvd.classical_qsvd_full", "args": [res]}])
+    elif kind == "unitary":
+        prod = {"k": "fn", "fn": "data_gen.generate_random_unitary_matrix", "args": [R.randint(1, 4)]}
+        cons = R.choice([{"k": "fn", "fn": "utils.ishermitian", "args": [res]},
+                         {"k": "fn", "fn": "decomp.hessenberg.hessenbergize", "args": [res]},
+                         {"k": "fn", "fn": "utils.spectral_norm_2", "args": [res]}])
+    elif kind == "qr":
+        prod = {"k": "fn", "fn": "decomp.qsvd.qr_qua", "args": [G(R.randint(2, 5), R.randint(1, 3), R.randrange(10 ** 6))]}
+        cons = {"k": "fn", "fn": "utils.quat_matmat", "args": [dict(res, pick=0), dict(res, pick=1)]}
+    elif kind == "lu":
+        A = G(R.randint(2, 4), R.randint(2, 4), R.randrange(10 ** 6))
+        prod = {"k": "fn", "fn": "decomp.quaternion_lu", "args": [A]}
+        cons = {"k": "fn", "fn": "decomp.verify_lu_decomposition", "args": [A, dict(res, pick=0), dict(res, pick=1)]}
+    elif kind == "svd":
+        A = G(R.randint(2, 5), R.randint(2, 4), R.randrange(10 ** 6))
+        prod = {"k": "fn", "fn": "decomp.qsvd.classical_qsvd_full", "args": [A]}
+        cons = R.choice([{"k": "fn", "fn": "utils.quat_hermitian", "args": [dict(res, pick=0)]},
+                         {"k": "fn", "fn": "utils.quat_frobenius_norm", "args": [dict(res, pick=2)]}])
+    else:
+        H = _herm(R, 2, 4)
+        prod = {"k": "fn", "fn": "decomp.quaternion_eigendecomposition", "args": [H]}
+        cons = {"k": "fn", "fn": "decomp.eigen.verify_eigendecomposition", "args": [H, dict(res, pick=0), dict(res, pick=1)]}
+    prod["client"] = client
+    cons["client"] = client
+    return prod, cons
 
 
 # ------------------------------------------------------------------ generation
@@ -455,10 +508,20 @@ def gen_random(seed, world, tier):
                 steps.append({"k": "new", "obj": f"x{pos}", "cls": "solver.CGNEQSolver",
                               "cfg": {"seed": R.randrange(100)}, "client": client, "keep": True})
             continue
-        if x < 0.45:
+        if x < 0.22:
+            prod, st = gen_flow(R, client, len(steps))
+            steps.append(prod)
+        elif x < 0.27:
+            # a request outside the domain of a Hermitian-only routine, through a reused buffer
+            st = {"k": "fn", "fn": R.choice(HERM_ONLY), "client": client,
+                  "args": [dict(R.choice([_herm(R, 3, 3), G(3, 3, R.randrange(10 ** 6)), _herm(R, 3, 3)]), buf="H3")]}
+        elif x < 0.45:
             st = gen_fn_step(R, client)
             if R.random() < 0.25 and st["fn"] not in _inplace():
                 st["args"] = _with_layout(R, st["args"])
+            elif R.random() < 0.2 and st["args"] and isinstance(st["args"][0], dict) \
+                    and st["args"][0].get("gen") in ("gauss", "psvd", "herm", "int") and st["fn"] not in _inplace():
+                st["args"] = [dict(st["args"][0], buf="F")] + st["args"][1:]
         else:
             oi = R.randrange(nobj)
             cname = cfgs[oi]
@@ -493,7 +556,11 @@ def gen_random(seed, world, tier):
         steps.append(st)
         if st["k"] in ("call", "fn") and "fault" not in st and R.random() < 0.12:
             steps.append({"k": "repeat", "of": len(steps) - 1, "client": R.randrange(nclients)})
-    return {"prop": PROP, "seed": seed, "world": world, "mode": "random", "steps": steps}
+        elif st["k"] in ("call", "fn") and "fault" not in st and R.random() < 0.10 \
+                and not any(isinstance(a, dict) and a.get("gen") == "result" for a in st.get("args", [])):
+            steps.append({"k": "reissue", "of": len(steps) - 1, "shift": R.randint(1, 40),
+                          "client": R.randrange(nclients)})
+    return {"prop": PROP, "seed": seed, "world": world, "mode": "random", "steps": steps, "auto_reissue": 0.3}
 
 
 def gen_jobs(base_seed, tier, budget=None):
@@ -533,6 +600,18 @@ def gen_jobs(base_seed, tier, budget=None):
                 jobs.append({"seed": seed, "trace": {"prop": PROP, "seed": seed, "world": w, "mode": "buffer",
                                                      "cfgname": cfgname, "seq": [pi, "twin", pi], "steps": steps}})
             sid += 1
+    # the same buffer handed three times to a Hermitian-only routine: Hermitian, refilled with a
+    # non-Hermitian matrix, refilled with another Hermitian one (a validation result remembered by
+    # object identity would let the second request through)
+    for fn in HERM_ONLY + ("utils.det",):
+        for w in exh_worlds:
+            seed = base_seed * 10 ** 6 + 650000 + sid
+            extra = ["Moore"] if fn == "utils.det" else []
+            H1, N1, H2 = dict(HERM(4, 61), buf="W"), dict(G(4, 4, 62), buf="W"), dict(HERM(4, 63, [1.5, 0.7, -0.2, -1.1]), buf="W")
+            steps = [{"k": "fn", "fn": fn, "args": [a] + extra, "client": 0} for a in (H1, N1, H2, N1, H1)]
+            jobs.append({"seed": seed, "trace": {"prop": PROP, "seed": seed, "world": w, "mode": "buffer",
+                                                 "cfgname": fn, "seq": ["H", "N", "H", "N", "H"], "steps": steps}})
+        sid += 1
     n_rand = budget if budget is not None else (400 if tier == "quick" else 12000)
     for i in range(n_rand):
         seed = base_seed * 10 ** 6 + i
@@ -553,7 +632,7 @@ class Hooks(BaseHooks):
 
     def after_step(self, ex, i, step, rec, viol):
         k = rec["k"]
-        if k not in ("call", "fn", "repeat"):
+        if k not in ("call", "fn", "repeat", "reissue"):
             return
         if self.trace.get("mode") == "recovery":
             # sub-steps of a crash-recovery sweep: only argument immutability is judged here;
@@ -563,12 +642,28 @@ class Hooks(BaseHooks):
             if (step.get("fault") or {}).get("line") and rec.get("fault_fired"):
                 self.cnt["fault_raised" if rec["ok"] == "exc" else "fault_swallowed"] += 1
             return
-        src = self.trace["steps"][step["of"]] if k == "repeat" else step
+        src = self.trace["steps"][step["of"]] if k in ("repeat", "reissue") else step
         name = src.get("fn") or f"{ex.objcfg[src['obj']][0]}.{src['meth']}"
         self.cnt["calls" if "obj" in src else "fn"] += 1
         if rec["ok"] == "exc":
             self.cnt["raised"] += 1
-        fault = (step.get("fault") or {}) if k != "repeat" else {}
+        fault = (step.get("fault") or {}) if k not in ("repeat", "reissue") else {}
+        if k in ("call", "fn") and rec.get("reseeds"):
+            viol.append(V("rng_reset", i, f"{name} re-seeded numpy's global generator during the call "
+                                          f"({rec['reseeds']} call(s) of np.random.seed)"))
+        ar = rec.get("auto_reissue")
+        if ar:
+            self.cnt["reissues"] = self.cnt.get("reissues", 0) + 1
+            if ar["rng_before"] != rec["rng_before"] and ar["rng_after"] == rec["rng_after"]:
+                viol.append(V("rng_reset", i, f"{name} leaves the shared generator in the same state whatever state "
+                                              f"it found it in: it resets the global stream instead of consuming it"))
+        if k == "reissue":
+            orig = ex.recs[step["of"]]
+            self.cnt["reissues"] = self.cnt.get("reissues", 0) + 1
+            if orig["rng_before"] != orig["rng_after"] and rec["rng_before"] != orig["rng_before"] \
+                    and rec["rng_after"] == orig["rng_after"]:
+                viol.append(V("rng_reset", i, f"{name} leaves the shared generator in the same state whatever state it "
+                                              f"found it in: it re-seeds the global stream instead of consuming it"))
         # oracle 1: arguments bit-identical before/after (also when the call raises)
         if rec["args_changed"] and src.get("fn") not in _inplace():
             viol.append(V("args_mutated", i, f"{name} changed argument(s) {rec['args_changed']} in place"))
@@ -613,7 +708,7 @@ class Hooks(BaseHooks):
                 out.append((i, req))
         for i in self.need:
             step = self.trace["steps"][i]
-            src = self.trace["steps"][step["of"]] if step["k"] == "repeat" else step
+            src = self.trace["steps"][step["of"]] if step["k"] in ("repeat", "reissue") else step
             req = ref_request(ex, i, src, ex.states)
             req["step"]["k"] = "call" if "obj" in src else "fn"
             out.append((i, req))
@@ -671,7 +766,7 @@ def cross_check(results):
 def finding_tags(trace, v):
     idx = v.get("step", -1)
     st = trace["steps"][idx] if 0 <= idx < len(trace["steps"]) else {}
-    if st.get("k") == "repeat":
+    if st.get("k") in ("repeat", "reissue"):
         st = trace["steps"][st["of"]]
     tags = {"oracle": v["oracle"]}
     if st.get("k") == "sweep":
